@@ -5,6 +5,7 @@ import (
 	"fmt"
 	"math/rand"
 	"reflect"
+	"strings"
 	"time"
 
 	ucfg "github.com/elastic/go-ucfg"
@@ -52,12 +53,27 @@ type getter struct {
 }
 
 var getters = []getter{
-	{"Bool", func(c *ucfg.Config, n string, i int, o ...ucfg.Option) error { _, err := c.Bool(n, i, o...); return err }},
+	{"Bool", func(c *ucfg.Config, n string, i int, o ...ucfg.Option) error {
+		_, err := c.Bool(n, i, o...)
+		return err
+	}},
 	{"Int", func(c *ucfg.Config, n string, i int, o ...ucfg.Option) error { _, err := c.Int(n, i, o...); return err }},
-	{"Uint", func(c *ucfg.Config, n string, i int, o ...ucfg.Option) error { _, err := c.Uint(n, i, o...); return err }},
-	{"Float", func(c *ucfg.Config, n string, i int, o ...ucfg.Option) error { _, err := c.Float(n, i, o...); return err }},
-	{"String", func(c *ucfg.Config, n string, i int, o ...ucfg.Option) error { _, err := c.String(n, i, o...); return err }},
-	{"Child", func(c *ucfg.Config, n string, i int, o ...ucfg.Option) error { _, err := c.Child(n, i, o...); return err }},
+	{"Uint", func(c *ucfg.Config, n string, i int, o ...ucfg.Option) error {
+		_, err := c.Uint(n, i, o...)
+		return err
+	}},
+	{"Float", func(c *ucfg.Config, n string, i int, o ...ucfg.Option) error {
+		_, err := c.Float(n, i, o...)
+		return err
+	}},
+	{"String", func(c *ucfg.Config, n string, i int, o ...ucfg.Option) error {
+		_, err := c.String(n, i, o...)
+		return err
+	}},
+	{"Child", func(c *ucfg.Config, n string, i int, o ...ucfg.Option) error {
+		_, err := c.Child(n, i, o...)
+		return err
+	}},
 }
 
 func getterByName(n string) getter {
@@ -98,7 +114,9 @@ func findPaths(r *rand.Rand, t *model.Node) (prim, obj, list string, listLen int
 		if len(p) > 0 {
 			switch {
 			case n.Kind == model.KPrim:
-				prims = append(prims, pathStr(p))
+				if str, ok := n.Prim.(string); !ok || !strings.Contains(str, "$") {
+					prims = append(prims, pathStr(p))
+				}
 			case n.Kind == model.KSub && n.HasA && len(n.A) > 0:
 				lists = append(lists, pathStr(p))
 				lens[pathStr(p)] = len(n.A)
@@ -193,7 +211,9 @@ func drive(res *harness.R, r *rand.Rand, V *model.Node, src string) {
 	}
 	ps := ucfg.PathSep(".")
 	c := fresh()
-	boom := ucfg.Resolve(func(string) (string, parse.Config, error) { return "", parse.DefaultConfig, errors.New("resolver boom") })
+	boom := ucfg.Resolve(func(string) (string, parse.Config, error) {
+		return "", parse.DefaultConfig, errors.New("resolver boom")
+	})
 
 	// getters
 	for _, g := range getters {
@@ -379,12 +399,32 @@ func drive(res *harness.R, r *rand.Rand, V *model.Node, src string) {
 		{"unknown-validator-tag", true, func() interface{} { return &bogusValidator{} }, nil},
 		{"failing-validate-method", true, func() interface{} { return &failingValidate{} }, nil},
 		{"failing-unpacker-field", true, func() interface{} { return &failingUnpackerField{} }, nil},
-		{"array-too-short", true, func() interface{} { return &struct{ L [2]int `config:"zz_lst"` }{} }, nil},
-		{"unresolvable-reference-into-string", true, func() interface{} { return &struct{ S string `config:"zz_ref"` }{} }, nil},
+		{"array-too-short", true, func() interface{} {
+			return &struct {
+				L [2]int `config:"zz_lst"`
+			}{}
+		}, nil},
+		{"unresolvable-reference-into-string", true, func() interface{} {
+			return &struct {
+				S string `config:"zz_ref"`
+			}{}
+		}, nil},
 		{"unresolvable-reference-into-map", true, func() interface{} { return &map[string]interface{}{} }, nil},
-		{"error-operator-into-string", true, func() interface{} { return &struct{ S string `config:"zz_msg"` }{} }, nil},
-		{"resolver-error-into-int", true, func() interface{} { return &struct{ I int `config:"zz_ref"` }{} }, []ucfg.Option{boom}},
-		{"list-of-structs-from-primitives", true, func() interface{} { return &struct{ L []struct{ A int } `config:"zz_lst"` }{} }, nil},
+		{"error-operator-into-string", true, func() interface{} {
+			return &struct {
+				S string `config:"zz_msg"`
+			}{}
+		}, nil},
+		{"resolver-error-into-int", true, func() interface{} {
+			return &struct {
+				I int `config:"zz_ref"`
+			}{}
+		}, []ucfg.Option{boom}},
+		{"list-of-structs-from-primitives", true, func() interface{} {
+			return &struct {
+				L []struct{ A int } `config:"zz_lst"`
+			}{}
+		}, nil},
 	}
 	for _, u := range ucases {
 		u := u
